@@ -947,15 +947,22 @@ func (x *Exec) copiedPointers() map[types.Object]bool {
 }
 
 func (x *Exec) sharedPointerWrite(l ast.Expr, env *Env) {
+	if t := x.sharedWriteType(l); t != nil {
+		x.havocPointeesOf(t, env, types.ExprString(l))
+	}
+}
+
+// sharedWriteType: the lvalue l writes THROUGH a pointer that this function copied from elsewhere; returns the
+// pointer type, or nil.
+func (x *Exec) sharedWriteType(l ast.Expr) types.Type {
 	if x.termMode || x.cx == nil || x.cx.fi == nil {
-		return
+		return nil
 	}
 	info := x.cx.info
 	copied := x.copiedPointers()
 	if len(copied) == 0 {
-		return
+		return nil
 	}
-	// the lvalue must be a field/element write: walk the components it goes THROUGH
 	cur := ast.Unparen(l)
 	first := true
 	for {
@@ -965,8 +972,7 @@ func (x *Exec) sharedPointerWrite(l ast.Expr, env *Env) {
 			next = v.X
 			if !first {
 				if sel, ok := info.Selections[v]; ok && sel.Kind() == types.FieldVal && copied[sel.Obj()] {
-					x.havocPointeesOf(info.TypeOf(v), env, types.ExprString(l))
-					return
+					return info.TypeOf(v)
 				}
 			}
 		case *ast.IndexExpr:
@@ -977,18 +983,93 @@ func (x *Exec) sharedPointerWrite(l ast.Expr, env *Env) {
 			next = v.X
 		case *ast.Ident:
 			if !first {
-				o := info.Uses[v]
-				if o != nil && copied[o] {
-					x.havocPointeesOf(info.TypeOf(v), env, types.ExprString(l))
+				if o := info.Uses[v]; o != nil && copied[o] {
+					return info.TypeOf(v)
 				}
 			}
-			return
+			return nil
 		default:
-			return
+			return nil
 		}
 		first = false
 		cur = ast.Unparen(next)
 	}
+}
+
+// sharedWriteMods: variables that a loop body may change by writing through copied pointers (added to the
+// loop's modified set so that the havoc survives the loop cut).
+func (x *Exec) sharedWriteMods(body ast.Node, env *Env, mod map[types.Object]bool) {
+	if body == nil || x.cx == nil || x.cx.fi == nil {
+		return
+	}
+	var ts []types.Type
+	ast.Inspect(body, func(n ast.Node) bool {
+		switch s := n.(type) {
+		case *ast.AssignStmt:
+			for _, l := range s.Lhs {
+				if t := x.sharedWriteType(l); t != nil {
+					ts = append(ts, t)
+				}
+			}
+		case *ast.IncDecStmt:
+			if t := x.sharedWriteType(s.X); t != nil {
+				ts = append(ts, t)
+			}
+		}
+		return true
+	})
+	for _, t := range ts {
+		for _, o := range x.pointeeHolders(t, env) {
+			mod[o] = true
+		}
+	}
+}
+
+// pointeeHolders: variables of env whose type can hold a pointer to the struct type ptrT points to.
+func (x *Exec) pointeeHolders(ptrT types.Type, env *Env) []types.Object {
+	pt, ok := ptrT.Underlying().(*types.Pointer)
+	if !ok {
+		return nil
+	}
+	target := pt.Elem()
+	var contains func(t types.Type, depth int) bool
+	contains = func(t types.Type, depth int) bool {
+		if depth > 4 {
+			return false
+		}
+		switch u := t.(type) {
+		case *types.Pointer:
+			return types.Identical(u.Elem(), target) || contains(u.Elem(), depth+1)
+		case *types.Slice:
+			return contains(u.Elem(), depth+1)
+		case *types.Array:
+			return contains(u.Elem(), depth+1)
+		case *types.Map:
+			return contains(u.Elem(), depth+1)
+		case *types.Named:
+			if st, ok := u.Underlying().(*types.Struct); ok {
+				if types.Identical(u, target) {
+					return false
+				}
+				for i := 0; i < st.NumFields(); i++ {
+					if contains(st.Field(i).Type(), depth+1) {
+						return true
+					}
+				}
+				return false
+			}
+			return contains(u.Underlying(), depth+1)
+		}
+		return false
+	}
+	var objs []types.Object
+	for o := range env.vars {
+		if contains(o.Type(), 0) {
+			objs = append(objs, o)
+		}
+	}
+	sort.Slice(objs, func(i, j int) bool { return objs[i].Pos() < objs[j].Pos() })
+	return objs
 }
 
 func (x *Exec) havocPointeesOf(ptrT types.Type, env *Env, what string) {
@@ -1027,13 +1108,8 @@ func (x *Exec) havocPointeesOf(ptrT types.Type, env *Env, what string) {
 		}
 		return false
 	}
-	var objs []types.Object
-	for o := range env.vars {
-		if contains(o.Type(), 0) {
-			objs = append(objs, o)
-		}
-	}
-	sort.Slice(objs, func(i, j int) bool { return objs[i].Pos() < objs[j].Pos() })
+	_ = contains
+	objs := x.pointeeHolders(ptrT, env)
 	n := 0
 	for _, o := range objs {
 		cur := env.vars[o]
@@ -1728,6 +1804,7 @@ func (x *Exec) execFor(s *ast.ForStmt, env *Env, label string) *Env {
 	info := x.cx.info
 	mod := assignedVars(info, s.Body, x.cx.closures)
 	x.aliasRoots(info, s.Body, mod)
+	x.sharedWriteMods(s.Body, env, mod)
 	if s.Post != nil {
 		for o := range assignedVars(info, s.Post, x.cx.closures) {
 			mod[o] = true
@@ -1777,6 +1854,7 @@ func (x *Exec) execRange(s *ast.RangeStmt, env *Env, label string) *Env {
 	coll := x.eval(s.X, env)
 	mod := assignedVars(info, s.Body, x.cx.closures)
 	x.aliasRoots(info, s.Body, mod)
+	x.sharedWriteMods(s.Body, env, mod)
 	var keyObj, valObj types.Object
 	getObj := func(e ast.Expr) types.Object {
 		if e == nil {
